@@ -38,6 +38,17 @@ def loosenings(e):
     return out
 
 
+def text_spellings(d):
+    """other JSON texts of the same credential: pretty-printed, \\u-escaped names, a member name written twice (the text
+    means what json.loads makes of it: the last occurrence)"""
+    compact = json.dumps(d, separators=(",", ":"))
+    return [("text-pretty", json.dumps(d, indent=2, sort_keys=True)),
+            ("text-type-twice", compact[:-1] + ',"type":' + json.dumps(d["type"]) + "}"),
+            ("text-id-twice-last-wins", '{"id":"overridden-below",' + compact[1:]),
+            ("text-repeat-in-ignored-member", compact.replace('"clientExtensionResults":{}', '"clientExtensionResults":{"a":1,"a":2}')),
+            ("text-escaped-names", compact.replace('"type"', '"\\u0074ype"').replace('"response"', '"r\\u0065sponse"'))]
+
+
 def byte_forms(a, e, wrap):
     a2 = dict(a)
     for k in ("raw_id", "client_data_json", "authenticator_data", "signature"):
@@ -117,6 +128,8 @@ def reg_work(res, tie, fmt, choice, fs, variant):
     if "R.cred-type" not in fs:
         outcomes["dict"] = cases.run_reg(c, e, "dict")
         outcomes["text"] = cases.run_reg(c, e, "text")
+        for nm, text in text_spellings(core.to_reg_json(c)):
+            outcomes[nm] = cases.run_reg(c, e, cred_obj=text)
     for nm, wrap in (("bytes-subclass", MyBytes), ("memoryview", memoryview),
                      ("memoryview-of-writable-buffer", lambda b: memoryview(bytearray(b))),
                      ("memoryview-slice", lambda b: memoryview(b"\x00" + bytes(b) + b"\x00")[1:-1]),
@@ -183,6 +196,8 @@ def work(tasks, idx):
         if "A.cred-type" not in fs:   # the JSON forms always carry type public-key
             outcomes["dict"] = cases.run_auth(a, e, "dict")
             outcomes["text"] = cases.run_auth(a, e, "text")
+            for nm, text in text_spellings(core.to_auth_json(a)):
+                outcomes[nm] = cases.run_auth(a, e, cred_obj=text)
         for nm, wrap in (("bytes-subclass", MyBytes), ("memoryview", memoryview),
                          ("memoryview-of-writable-buffer", lambda b: memoryview(bytearray(b))),
                          ("memoryview-slice", lambda b: memoryview(b"\x00" + bytes(b) + b"\x00")[1:-1]),
